@@ -5,6 +5,9 @@ CONSTANTS
   MaxS = 1
   Scheme = "4w"
 INVARIANT EnumerationIsClosedForm
+INVARIANT LimitIsSelfingInvariant
+INVARIANT InbredIsHomozygous
+INVARIANT InbredTwoWayShare
 INVARIANT MarginalShares
 INVARIANT LocusSymmetric
 INVARIANT CompleteLinkage
